@@ -22,7 +22,7 @@ constexpr uint32_t M_FUNC = 1u << hx::SITE_FUNC, M_COPY = 1u << hx::SITE_COPY, M
                    M_EQ = 1u << hx::SITE_EQ, M_FUNC2 = 1u << hx::SITE_FUNC2, M_PRED = 1u << hx::SITE_PRED, M_CB = 1u << hx::SITE_CALLBACK;
 
 void add(const Options& o, std::vector<Item>& items, const std::string& name, std::function<void()> body, uint32_t mask,
-         int Pq = 1, int Pt = 2)
+         int Pq = 2, int Pt = 3)
 {
     Item it;
     it.name = name;
@@ -441,13 +441,13 @@ void make_items(const Options& o, std::vector<Item>& items)
 {
     bool thorough = o.tier == "thorough";
     // A
-    add(o, items, "lr_guarded<Pair>: 1 writer x 2 modify (throwing functor) | 1 reader x 2", [] { lr_body(1, 2, 1, 2); }, M_FUNC | M_FUNC2, 2, 3);
-    add(o, items, "lr_guarded<Pair>: 2 writers x 1 modify (throwing functor) | 1 reader x 2", [] { lr_body(2, 1, 1, 2); }, M_FUNC | M_FUNC2, 2, 3);
-    add(o, items, "lr_guarded<Pair>: 1 writer x 1 modify (throwing functor) | 2 readers x 1", [] { lr_body(1, 1, 2, 1); }, M_FUNC | M_FUNC2, 2, 3);
+    add(o, items, "lr_guarded<Pair>: 1 writer x 2 modify (throwing functor) | 1 reader x 2", [] { lr_body(1, 2, 1, 2); }, M_FUNC | M_FUNC2, 3, 4);
+    add(o, items, "lr_guarded<Pair>: 2 writers x 1 modify (throwing functor) | 1 reader x 2", [] { lr_body(2, 1, 1, 2); }, M_FUNC | M_FUNC2, 3, 4);
+    add(o, items, "lr_guarded<Pair>: 1 writer x 1 modify (throwing functor) | 2 readers x 1", [] { lr_body(1, 1, 2, 1); }, M_FUNC | M_FUNC2, 3, 4);
     add(o, items, "lr_guarded<Pair>: 1 writer x 2 modify called from a destructor during stack unwinding (throwing functor) | 1 reader x 2",
-        [] { lr_body(1, 2, 1, 2, true); }, M_FUNC | M_FUNC2, 2, 3);
+        [] { lr_body(1, 2, 1, 2, true); }, M_FUNC | M_FUNC2, 3, 4);
     add(o, items, "lr_guarded<Pair>: 2 writers x 1 modify called from a destructor during stack unwinding (throwing functor) | 1 reader x 1",
-        [] { lr_body(2, 1, 1, 1, true); }, M_FUNC | M_FUNC2, 2, 3);
+        [] { lr_body(2, 1, 1, 1, true); }, M_FUNC | M_FUNC2, 3, 4);
     if (thorough) add(o, items, "lr_guarded<Pair>: 2 writers x 2 modify (throwing functor) | 1 reader x 2", [] { lr_body(2, 2, 1, 2); }, M_FUNC | M_FUNC2, 2, 2);
     // B
     g_insts = all_instances();
@@ -465,34 +465,34 @@ void make_items(const Options& o, std::vector<Item>& items)
             for (size_t b = a; b < al.size(); b++) {
                 std::string nm = in.name + " | " + opc_name[al[a].code] + " | " + opc_name[al[b].code] + "  (throwing copy/assign/compare/functor)";
                 std::vector<std::vector<OpI>> th = {{al[a]}, {al[b]}};
-                add(o, items, nm, [ii, th] { lock_body(ii, th); }, M_COPY | M_ASSIGN | M_EQ | M_FUNC, 1, 2);
+                add(o, items, nm, [ii, th] { lock_body(ii, th); }, M_COPY | M_ASSIGN | M_EQ | M_FUNC, 2, 3);
             }
         if (thorough)
             for (size_t a = 0; a < al.size(); a++)
                 for (size_t b = 0; b < al.size(); b++) {
                     std::string nm = in.name + " | " + opc_name[al[a].code] + " " + opc_name[al[b].code] + " | " + opc_name[al[a].code];
                     std::vector<std::vector<OpI>> th = {{al[a], al[b]}, {al[a]}};
-                    add(o, items, nm, [ii, th] { lock_body(ii, th); }, M_COPY | M_ASSIGN | M_EQ | M_FUNC, 1, 1);
+                    add(o, items, nm, [ii, th] { lock_body(ii, th); }, M_COPY | M_ASSIGN | M_EQ | M_FUNC, 2, 2);
                 }
     }
     // C
-    add(o, items, "cow_guarded<Pair>: 2 writers lock+commit (throwing copy constructor) | reader x 2", [] { cow_body(2, true); }, M_COPY, 1, 2);
-    add(o, items, "cow_guarded<Pair>: 2 writers lock+commit (throwing copy constructor)", [] { cow_body(2, false); }, M_COPY, 2, 3);
+    add(o, items, "cow_guarded<Pair>: 2 writers lock+commit (throwing copy constructor) | reader x 2", [] { cow_body(2, true); }, M_COPY, 2, 3);
+    add(o, items, "cow_guarded<Pair>: 2 writers lock+commit (throwing copy constructor)", [] { cow_body(2, false); }, M_COPY, 3, 4);
     add(o, items, "cow_guarded<Pair>: 2 writers lock, modify, then user code throws: handle released by unwinding (throwing copy constructor) | reader x 2",
-        [] { cow_body(2, true, true); }, M_COPY, 1, 2);
+        [] { cow_body(2, true, true); }, M_COPY, 2, 3);
     if (thorough) add(o, items, "cow_guarded<Pair>: 3 writers lock+commit (throwing copy constructor)", [] { cow_body(3, false); }, M_COPY, 2, 2);
     // D
     static const char* dn[] = {"modify_detach | modify_detach", "modify_async | reader | modify_detach", "modify_detach modify_detach | reader",
                                "modify_detach modify_async | modify_async"};
     for (int v = 0; v < 4; v++)
-        add(o, items, std::string("deferred_guarded<Pair>: ") + dn[v] + " (throwing functors)", [v] { dg_body(v); }, M_FUNC, 2, 3);
+        add(o, items, std::string("deferred_guarded<Pair>: ") + dn[v] + " (throwing functors)", [v] { dg_body(v); }, M_FUNC, 3, 4);
     // E
     for (int v = 0; v < 3; v++)
-        add(o, items, "DelayedDestructor: throwing callback, variant " + std::to_string(v), [v] { dd_body(v); }, M_CB, 2, 3);
+        add(o, items, "DelayedDestructor: throwing callback, variant " + std::to_string(v), [v] { dd_body(v); }, M_CB, 3, 4);
     // F
     for (int v = 0; v < 2; v++)
         add(o, items, "SearchableObjectHolder: removeObject(pred) | findObject(pred" + std::string(v ? ",type" : "") + ") with throwing predicates",
-            [v] { soh_body(v); }, M_PRED, 2, 3);
+            [v] { soh_body(v); }, M_PRED, 3, 4);
 }
 }  // namespace
 
